@@ -45,7 +45,7 @@ Alphabet(c) ==
   \cup (IF c.sd.custom THEN {Op("Preset", "")} ELSE {})
 
 Passive(op) == IsSetter(op) /\ op.arg \in {"nil", "uninit"}
-SrvRec(max, hrr) == [max |-> max, hrr |-> hrr, keys |-> 1, store |-> TRUE, cookie |-> 0, alpn |-> <<>>, nonce |-> 0]
+SrvRec(max, hrr) == [max |-> max, hrr |-> hrr, keys |-> 1, store |-> TRUE, cookie |-> 0, alpn |-> <<>>, nonce |-> 0, suite13 |-> 0]
 CachedVers(c) == IF ~c.cached THEN 0 ELSE IF NegVers(SdTP, [max |-> c.srvmax]) = 772 THEN 13 ELSE 12
 StaticEnv(c) == [specT |-> SdT(c.sd), specP |-> SdP(c.sd), custom |-> c.sd.custom, skip |-> SdSkip(c.sd), omit |-> c.sd.omitpsk,
                   max |-> SdMax(c.sd), cacheVers |-> CachedVers(c), injVers |-> 0]
@@ -120,12 +120,16 @@ PFeat == [sd \in C19Parrots \cup AlpnVariants |-> Feat(sd)]
 \* extension the parrots do not have (handshake_client_tls13.go, uTLS section of processHelloRetryRequest)
 \* nonce > 0: the TLS 1.3 server issues its tickets with a ticket_nonce of that many bytes, as OpenSSL / BoringSSL do
 \* (the in-tree server alone always sends an empty one); the PSK of the ticket is derived with it (RFC 8446 4.6.1)
-C19Srvs == { s \in [max : {771, 772}, hrr : BOOLEAN, keys : {1, 2}, store : {~Deep}, cookie : {0, 1, 32}, alpn : {<<"h2">>}, nonce : {0, 1, 8, 32}] :
+C19Srvs == { s \in [max : {771, 772}, hrr : BOOLEAN, keys : {1, 2}, store : {~Deep}, cookie : {0, 1, 32}, alpn : {<<"h2">>}, nonce : {0, 1, 8, 32}, suite13 : {0, 4865, 4866, 4867}] :
                /\ s.hrr => s.max = 772
                /\ s.cookie > 0 => (s.hrr /\ s.keys = 1)
-               /\ s.nonce > 0 => (s.max = 772 /\ ~s.hrr /\ s.keys = 1 /\ s.cookie = 0) }
+               /\ s.nonce > 0 => (s.max = 772 /\ ~s.hrr /\ s.keys = 1 /\ s.cookie = 0)
+               \* suite13 > 0: the TLS 1.3 server selects that suite (TLS_AES_128_GCM_SHA256 / TLS_AES_256_GCM_SHA384 /
+               \* TLS_CHACHA20_POLY1305_SHA256): binder length and PSK hash compatibility depend on it
+               /\ s.suite13 > 0 => (s.max = 772 /\ ~s.hrr /\ s.keys = 1 /\ s.cookie = 0 /\ s.nonce = 0) }
 PskParrots == {x \in C19Parrots : PFeat[x].P}
-PlainSrvs == {s \in C19Srvs : s.nonce = 0}
+PlainSrvs == {s \in C19Srvs : s.nonce = 0 /\ s.suite13 = 0}
+SuiteSrvs == {s \in C19Srvs : s.suite13 > 0}
 \* how the application drives the connection (all three are documented uses of BuildHandshakeState: "should only be called
 \* explicitly to inspect/change fields"; SetClientRandom: "BuildHandshakeFirst() must be called before")
 C19Uses == {"hs", "build", "edit"}
@@ -135,9 +139,12 @@ Cd(sd, name, srv, clock, use) == [spec |-> sd, name |-> name, srv |-> srv, clock
                              cache |-> "main", cfgcache |-> TRUE, ops |-> (IF sd.custom THEN <<Op("Preset", "")>> ELSE <<>>) \o UseOps(use),
                              alias |-> <<>>, role |-> "conn", ctl |-> TRUE]
 C19Space(h) ==
-  CASE Len(h) = 0 -> { Cd(sd, "a.example", srv, 0, "hs") : sd \in C19Parrots, srv \in {s \in C19Srvs : s.keys = 1 /\ s.cookie = 0 /\ s.nonce = 0} }
+  CASE Len(h) = 0 -> { Cd(sd, "a.example", srv, 0, "hs") : sd \in C19Parrots, srv \in {s \in C19Srvs : s.keys = 1 /\ s.cookie = 0 /\ s.nonce = 0 /\ s.suite13 = 0} }
                      \* tickets with a ticket_nonce matter to the parrots that can offer them again
-                     \cup { Cd(sd, "a.example", srv, 0, "hs") : sd \in PskParrots, srv \in {s \in C19Srvs : s.nonce > 0} }
+                     \cup { Cd(sd, "a.example", srv, 0, "hs") : sd \in PskParrots, srv \in {s \in C19Srvs : s.nonce > 0} \cup SuiteSrvs }
+    \* ... after a server that selected a given TLS 1.3 suite: the same suite again (must resume, binder of that hash) or
+    \* another one (same or different hash: resumption is the server's choice, both sides must agree on it)
+    [] Len(h) = 1 /\ h[1].srv.suite13 > 0 -> { Cd(sd, h[1].name, srv, 0, "hs") : sd \in PskParrots, srv \in SuiteSrvs }
     \* ... the connection after one to a nonce-issuing server goes to that server again (any PSK parrot, any usage)
     [] Len(h) = 1 /\ h[1].srv.nonce > 0 ->
                      { Cd(sd, h[1].name, h[1].srv, c, "hs") : sd \in PskParrots, c \in {0, 8} }
